@@ -1025,7 +1025,14 @@ class Monitors(object):
                             break
                         i -= 1
                 pref.append(best)
-            mp = tuple(sorted((k[2], v) for k, v in self.min_prev.items() if k[0] == L.key and k[1] == L.inc))
+            # (only peers the leader lists now: a read-only node gets a new id with every connection, and one that reconnects for
+            # ever must not look like progress)
+            try:
+                listed = set(str(n.id) for n in getattr(L.obj, '_SyncObj__raftNextIndex', {}))
+            except Exception:
+                listed = None
+            mp = tuple(sorted(((k[2] if ':' in str(k[2]) else 'ro'), v) for k, v in self.min_prev.items() if k[0] == L.key and k[1] == L.inc
+                              and (listed is None or str(k[2]) in listed)))
         else:
             mp = ()
         nsucc = sum(1 for s in self.quiet['final'] if s['cbs']) if self.quiet else 0
